@@ -219,9 +219,26 @@ func callApply(o aopts, indent string, doc, patch []byte) string {
 		if err != nil {
 			return "derr"
 		}
-		outb, err := p.ApplyIndentWithOptions(doc, indent, o.v5())
-		return obsOf(outb, err)
+		return obsOf(applyVia(p, o, indent, doc, len(patch)))
 	})
+}
+
+// every exported way of applying a patch is used: which one is a function of the case (never of the generator's
+// state, so that a replay takes the same route). With the package defaults in force (negative indices on, no limit,
+// nothing allowed or ensured, HTML escaping on) Apply and ApplyIndent are the same call as ApplyIndentWithOptions
+// with NewApplyOptions(); ApplyWithOptions is the same call with an empty indent.
+func applyVia(p jsonpatch.Patch, o aopts, indent string, doc []byte, salt int) ([]byte, error) {
+	defaults := o.neg && !o.allow && !o.ensure && o.esc && o.limit == 0 &&
+		jsonpatch.SupportNegativeIndices && jsonpatch.AccumulatedCopySizeLimit == 0
+	switch {
+	case defaults && indent == "" && salt%3 == 0:
+		return p.Apply(doc)
+	case defaults && salt%3 == 1:
+		return p.ApplyIndent(doc, indent)
+	case indent == "" && salt%2 == 0:
+		return p.ApplyWithOptions(doc, o.v5())
+	}
+	return p.ApplyIndentWithOptions(doc, indent, o.v5())
 }
 
 func callApplyDecoded(o aopts, indent string, doc []byte, p jsonpatch.Patch) string {
@@ -460,6 +477,17 @@ func genOp0(r *rng, cur *jv, c genCfg) opSpec {
 		var v *jv
 		if t := resolve(cur, p); t != nil && r.chance(3, 4) {
 			v = t.clone()
+			if r.chance(1, 6) {
+				// a value of ANOTHER type that looks like the target (its text inside a string, a one-element
+				// array around it, the empty value of another kind) or a near copy of it: must compare unequal
+				if r.chance(1, 2) {
+					var locs []loc
+					locations(v, "", &locs)
+					lookalike(r, locs[r.n(len(locs))].v)
+				} else {
+					v = mutateValue(r, v, c)
+				}
+			}
 			if v.kind == kObj && len(v.keys) > 1 && r.chance(1, 2) {
 				v.keys[0], v.keys[1] = v.keys[1], v.keys[0]
 				v.vals[0], v.vals[1] = v.vals[1], v.vals[0]
@@ -809,6 +837,34 @@ func streamTestTr(r *rng, n int, pfx string) {
 	}
 }
 
+// t is overwritten in place by a value of a different type that resembles it: the value's own JSON text held
+// in a string (and back), a one-element array around it (and back), the empty/zero value of another kind
+func lookalike(r *rng, t *jv) {
+	var w *jv
+	switch r.n(4) {
+	case 0:
+		w = jstr(spell{1, r}.print(t))
+	case 1:
+		if t.kind == kStr {
+			if x, err := parseJV([]byte(t.s)); err == nil {
+				w = x
+				break
+			}
+		}
+		w = jstr(spell{0, r}.print(t))
+	case 2:
+		if t.kind == kArr && len(t.arr) == 1 {
+			w = t.arr[0]
+		} else {
+			w = &jv{kind: kArr, arr: []*jv{t.clone()}}
+		}
+	default:
+		empties := []string{"{}", "[]", `""`, "null", "0", "false", `"null"`, `"0"`, `"false"`, `"{}"`, `"[]"`, "[null]", `{"":null}`}
+		w, _ = parseJV([]byte(r.pick(empties)))
+	}
+	*t = *w
+}
+
 // a value derived from v by a few random edits
 func mutateValue(r *rng, v *jv, c genCfg) *jv {
 	w := v.clone()
@@ -818,7 +874,21 @@ func mutateValue(r *rng, v *jv, c genCfg) *jv {
 		locations(w, "", &locs)
 		l := locs[r.n(len(locs))]
 		t := l.v
-		switch r.n(6) {
+		switch r.n(8) {
+		case 7:
+			// same number of members, one of them under another name
+			if t.kind == kObj && len(t.keys) > 0 {
+				name := r.pick(plainNames)
+				dup := false
+				for _, k := range t.keys {
+					dup = dup || k == name
+				}
+				if !dup {
+					t.keys[r.n(len(t.keys))] = name
+				}
+			}
+		case 6:
+			lookalike(r, t)
 		case 0:
 			if t.kind == kObj && len(t.keys) > 0 {
 				i := r.n(len(t.keys))
@@ -959,6 +1029,16 @@ func genMergePatch(r *rng, doc *jv, c genCfg, depth int) *jv {
 	return p
 }
 
+// v below k levels of one-member objects (a common path of nested objects, as deep as any recursion bound may sit)
+func deepWrap(v *jv, k int, name string) *jv {
+	for ; k > 0; k-- {
+		v = &jv{kind: kObj, keys: []string{name}, vals: []*jv{v}}
+	}
+	return v
+}
+
+var deepLevels = []int{2, 9, 31, 32, 33, 63, 64, 65, 66, 100, 127, 128, 129, 255, 256, 257, 300}
+
 func streamMerge(r *rng, n int, pfx string) {
 	for i := 0; i < n; i++ {
 		c := cfgFor(r)
@@ -970,6 +1050,10 @@ func streamMerge(r *rng, n int, pfx string) {
 			d = genObj(r, c, 0)
 		}
 		p := genMergePatch(r, d, c, 0)
+		if r.chance(1, 25) {
+			k := deepLevels[r.n(len(deepLevels))]
+			d, p = deepWrap(d, k, "k"), deepWrap(p, k, "k")
+		}
 		td, tp := spell{r.n(3), r}.text(d), spell{r.n(3), r}.text(p)
 		if r.chance(1, 40) {
 			tp = corrupt(r, tp)
@@ -1005,6 +1089,10 @@ func streamCompose(r *rng, n int, pfx string) {
 			p2 = genMergePatch(r, mid, c, 0)
 		} else {
 			p2 = genMergePatch(r, p1, c, 0) // shaped after p1: overlaps at depth
+		}
+		if r.chance(1, 25) {
+			k := deepLevels[r.n(len(deepLevels))]
+			d, p1, p2 = deepWrap(d, k, "k"), deepWrap(p1, k, "k"), deepWrap(p2, k, "k")
 		}
 		t1, t2, td := spell{r.n(3), r}.text(p1), spell{r.n(3), r}.text(p2), spell{r.n(3), r}.text(d)
 		comb := callMergeMerge(t1, t2)
@@ -1073,6 +1161,10 @@ func streamCreate(r *rng, n int, pfx string) {
 			if r.chance(1, 4) {
 				b = shuffleMembers(r, b)
 			}
+			if r.chance(1, 25) {
+				k := deepLevels[r.n(len(deepLevels))]
+				a, b = deepWrap(a, k, "k"), deepWrap(b, k, "k")
+			}
 		}
 		ta, tb := spell{r.n(3), r}.text(a), spell{r.n(3), r}.text(b)
 		if r.chance(1, 40) {
@@ -1126,6 +1218,18 @@ func emitDecode(id string, patch []byte) {
 		return sb.String()
 	})
 	emit("DECODE %s %s => %s", id, hx(patch), res)
+}
+
+// the text with insignificant white space (every kind RFC 8259 allows: space, tab, LF, CR) in front and behind
+func wsWrap(r *rng, text []byte) []byte {
+	ws := func() string {
+		var sb strings.Builder
+		for j := r.n(4); j > 0; j-- {
+			sb.WriteString(r.pick([]string{" ", "\t", "\n", "\r", "\r\n"}))
+		}
+		return sb.String()
+	}
+	return []byte(ws() + string(text) + ws())
 }
 
 func streamDecode(r *rng, n int, pfx string) {
@@ -1188,8 +1292,8 @@ func streamDecode(r *rng, n int, pfx string) {
 			text = []byte(r.pick(vals))
 		case 1:
 			text = corrupt(r, text)
-		case 2:
-			text = []byte(" " + string(text) + "\n")
+		case 2, 3, 4, 5:
+			text = wsWrap(r, text)
 		}
 		emitDecode(fmt.Sprintf("%s%d", pfx, i), text)
 	}
@@ -1416,6 +1520,12 @@ func streamBytes(r *rng, n int, pfx string) {
 					ops = append(ops, opSpec{op: r.pick([]string{"replace", "add"}), path: "", value: v})
 				case 1:
 					ops = append(ops, opSpec{op: "test", path: r.pick([]string{"", "/a", "/0", "/a/0", "/"})})
+				case 2:
+					// paths that make EnsurePathExistsOnAdd look at the current container as an array (index
+					// arithmetic on a root that an earlier operation may have replaced by null or a scalar)
+					v, _ := parseJV([]byte(r.pick([]string{"1", "null", "{}", "[]"})))
+					ops = append(ops, opSpec{op: r.pick([]string{"add", "add", "add", "replace", "remove"}),
+						path: r.pick([]string{"/1/a", "/0/0", "/3/-", "/a/1/b", "/0", "/-/x", "/2/1/0", "/-", "/1", "/a/-/0", "/00/1"}), value: v})
 				default:
 					v, _ := parseJV([]byte(`{"a":[null]}`))
 					ops = append(ops, genOp(r, v, cfgFor(r)))
